@@ -75,10 +75,18 @@ void parsec_debug_history_dump(void) { }
 static void vp_exit(int rc) { (void)rc; fatal_reached = 1; VASSUME(0); }
 void (*parsec_weaksym_exit)(int status) = vp_exit;
 int parsec_hwloc_nb_real_cores(void) { return NCORES; }
-int parsec_hwloc_get_ht(void) { return 1; }
-int parsec_hwloc_core_first_hrwd_ancestor_depth(void) { return 0; }
-int parsec_hwloc_get_nb_objects(int level) { (void)level; return 0; }
-unsigned int parsec_hwloc_nb_cores_per_obj(int level, int index) { (void)level; (void)index; return 0; }
+/* hardware topology seen by the "hwloc" map (KIND 3): NSOCK sockets of NCORES/NSOCK cores, NHT hardware threads per core;
+ * for the other kinds no socket level is reported (NSOCK = 0) */
+#ifndef NSOCK
+#define NSOCK 0
+#endif
+#ifndef NHT
+#define NHT 1
+#endif
+int parsec_hwloc_get_ht(void) { return NHT; }
+int parsec_hwloc_core_first_hrwd_ancestor_depth(void) { return 1; }
+int parsec_hwloc_get_nb_objects(int level) { (void)level; return NSOCK; }
+unsigned int parsec_hwloc_nb_cores_per_obj(int level, int index) { (void)level; (void)index; return NSOCK ? NCORES / NSOCK : 0; }
 char *parsec_hwloc_convert_cpuset(int sys, hwloc_cpuset_t c) { (void)sys; (void)c; return NULL; }
 int MPI_Initialized(int *flag) { *flag = 0; return 0; }
 int MPI_Comm_rank(MPI_Comm comm, int *rank) { (void)comm; *rank = 0; return 0; }
@@ -298,6 +306,38 @@ static void check(int k)
 #endif
 }
 #define NCHOICE NRR
+#elif KIND == 3
+/* "hwloc": one VP per socket, threads placed in core order, the request (k+1 threads) truncates the map */
+#define TPS ((NCORES / NSOCK) * NHT)            /* hardware threads per socket */
+static void check(int k)
+{
+    char buf[8] = "hwloc";
+    int req = k + 1;                             /* 1 .. NCORES*NHT + 1 requested threads */
+    VASSERTM(parsec_vpmap_init(buf, req) == 0, "init returns 0");
+    int tot = req < NSOCK * TPS ? req : NSOCK * TPS;
+    int exp_nbvp = (tot + TPS - 1) / TPS;
+    VASSERTM(parsec_vpmap_get_nb_vp() == exp_nbvp, "hwloc map: as many virtual processes as sockets needed for the requested threads");
+    for (int v = 0; v < NSOCK; v++) if (v < exp_nbvp) {
+        int nbth = (v < exp_nbvp - 1) ? TPS : tot - v * TPS;
+        VASSERTM(parsec_vpmap_get_vp_threads(v) == nbth && nbth >= 1, "hwloc map: full sockets first, the last virtual process gets the remaining threads (never an empty one)");
+        for (int t = 0; t < TPS; t++) if (t < nbth) {
+            int ht = 77, inf; unsigned long m = thread_mask(v, t, &inf);
+            (void)parsec_vpmap_get_vp_thread_affinity(v, t, &ht);
+            VASSERTM(m == (1UL << ((v * TPS + t) / NHT)) && !inf, "hwloc map: threads bound in core order, NHT threads per core");
+            VASSERTM(ht == t % NHT, "hwloc map: hardware-thread index");
+            VASSERTM(parsec_vpmap_get_vp_thread_cores(v, t) == 1, "hwloc map: one core per thread");
+        }
+        check_vp_union(v, nbth);
+    }
+    VASSERTM(parsec_vpmap_get_vp_threads(exp_nbvp) == PARSEC_ERR_BAD_PARAM, "queries outside the map are refused");
+    VASSERTM(!bad_index, "only indexes of available cores are handed to the bitmap layer");
+    VASSERTM(parsec_vpmap_get_nb_total_threads() == tot, "hwloc map: total number of threads");
+    finish();
+    if (req == TPS) VWITNESS("request ends exactly on a socket boundary");
+    if (req == TPS + 1) VWITNESS("one thread on the second socket");
+    if (req > NSOCK * TPS) VWITNESS("request larger than the machine");
+}
+#define NCHOICE (NCORES * NHT + 1)
 #else
 static void check_file(void)
 {
